@@ -108,11 +108,11 @@ fn shape_mixed_nested_operator(toks: &[&str]) -> bool {
 
 /// The runner keeps at most 200 violations per run: record only the first few witnesses of each
 /// *known* finding so that they can never crowd out a new one (all of them are still counted).
-static KNOWN_SEEN: [std::sync::atomic::AtomicUsize; 3] = [std::sync::atomic::AtomicUsize::new(0), std::sync::atomic::AtomicUsize::new(0), std::sync::atomic::AtomicUsize::new(0)];
+static KNOWN_SEEN: [std::sync::atomic::AtomicUsize; 5] = [std::sync::atomic::AtomicUsize::new(0), std::sync::atomic::AtomicUsize::new(0), std::sync::atomic::AtomicUsize::new(0), std::sync::atomic::AtomicUsize::new(0), std::sync::atomic::AtomicUsize::new(0)];
 const KNOWN_KEEP: usize = 40;
 
 fn report(obs: &mut Obs, kind: &str, case: &str, detail: &str) {
-    let slot = match kind { "roundtrip-param-scalar" => Some(0), "roundtrip-mixed-nested-operator" => Some(1), "roundtrip-bom-key" => Some(2), _ => None };
+    let slot = match kind { "roundtrip-param-scalar" => Some(0), "roundtrip-mixed-nested-operator" => Some(1), "roundtrip-bom-key" => Some(2), "roundtrip-empty-first-element" => Some(3), "roundtrip-header-empty-body" => Some(4), _ => None };
     if let Some(i) = slot {
         if KNOWN_SEEN[i].fetch_add(1, std::sync::atomic::Ordering::Relaxed) >= KNOWN_KEEP {
             obs.count(&format!("known-finding-not-listed-again:{}", kind));
@@ -131,12 +131,21 @@ fn oracle(_input: &[u8], t1: &str, out: &[u8], ic: u8, fac: u8, rt: bool, case: 
     // only get into a tape when blanks precede it); written first in the file it is taken for a BOM
     let w3 = toks.first().map_or(false, |t| t.starts_with("U:efbbbf"));
     if rt && w3 { obs.count("shape:bom-key"); }
+    // the format's ghost shapes: a container that is written first inside `{` and has empty content is dropped
+    // on re-reading.  w4: an array whose first element is an empty container; w5: a header whose body is empty.
+    let is_empty_at = |i: usize| toks.get(i).map_or(false, |t| *t == format!("A{}", i + 1)) && toks.get(i + 1).map_or(false, |t| *t == format!("E{}", i));
+    let is_array = |t: &str| t.starts_with('A') && t[1..].trim_start_matches('m').parse::<usize>().is_ok();
+    let w4 = (0..toks.len()).any(|i| is_array(toks[i]) && !is_empty_at(i) && is_empty_at(i + 1));
+    let w5 = (0..toks.len()).any(|i| toks[i].starts_with("H:") && is_empty_at(i + 1));
+    if rt && w4 { obs.count("shape:empty-first-element"); }
+    if rt && w5 { obs.count("shape:header-empty-body"); }
     if rt && w1 { obs.count("shape:param-scalar"); }
     if rt && w2 { obs.count("shape:mixed-nested-operator"); }
     // every divergence of a tape with a known-finding shape is reported under that finding's kind;
     // everything else keeps the general kinds and is a real violation
     let kind = |general: &'static str| -> &'static str {
-        if w3 { "roundtrip-bom-key" } else if w1 { "roundtrip-param-scalar" } else if w2 { "roundtrip-mixed-nested-operator" } else { general }
+        if w3 { "roundtrip-bom-key" } else if w1 { "roundtrip-param-scalar" } else if w2 { "roundtrip-mixed-nested-operator" }
+        else if w4 { "roundtrip-empty-first-element" } else if w5 { "roundtrip-header-empty-body" } else { general }
     };
     match TextTape::from_slice(out) {
         Err(e) => {
@@ -338,6 +347,22 @@ pub fn gen_c14(g: &mut Gen) {
         emit_input(g, ic, fac, &text, true);
     }
     g.count("bom-key-probes");
+
+    // 2d. known findings `roundtrip-empty-first-element` / `roundtrip-header-empty-body`: the ghost shapes
+    // of the format (only writable as `{ {} }`), in several positions
+    for t in [
+        &b"a={ { {} } x }"[..], b"a={ { {} } }", b"a={ { {} } 1 2 3 }", b"a={ { {} } { b=c } }", b"o={ k={ { {} } x } z=1 }",
+        b"a={ 1 { { {} } y } }", b"a={ { { {} } } x }", b"a = { b = { c = { { {} } d e } } }", b"a={ {\n{ }\n} x } b=c",
+    ] {
+        let text: Vec<u8> = String::from_utf8_lossy(t).replace("\\n", "\n").into_bytes();
+        let (ic, fac) = indent_cfg(&mut g.rng);
+        emit_input(g, ic, fac, &text, true);
+    }
+    for t in [&b"a=rgb { {} }"[..], b"a=hsv { { } } b=c", b"o={ c=LIST { {} } d=e }", b"a={ x={ y=rgb { {} } } }", b"k < hdr { {  } }"] {
+        let (ic, fac) = indent_cfg(&mut g.rng);
+        emit_input(g, ic, fac, t, true);
+    }
+    g.count("ghost-shape-probes");
 
     // 3. everything in C01's model including objects that continue as a bare list (not preserved: documented)
     let n = g.budget(1_000, 20_000);
